@@ -351,6 +351,8 @@ pub struct WorldBuild {
     pub start_invalid: bool,
     /// goal predicate additionally requires this of one component
     pub goal_comp: Option<CompCond>,
+    /// start and goal target share their rotational components bit for bit
+    pub translation_task: bool,
 }
 
 pub const FAMILIES: [&str; 11] = [
@@ -383,6 +385,7 @@ pub fn build_world(geo: &mut Box<dyn Geo>, rng: &mut Xo, ext: f64, family: &'sta
             sealed: false,
             start_invalid: false,
             goal_comp: None,
+            translation_task: false,
         }
     };
     let goal_radius = rng.range(0.03, 0.15) * ext;
@@ -437,7 +440,7 @@ pub fn build_world(geo: &mut Box<dyn Geo>, rng: &mut Xo, ext: f64, family: &'sta
                 return open(geo, rng, "open");
             }
             let fam = if family == "start_in_obstacle" && !start_invalid { "balls" } else { family };
-            WorldBuild { world, start, target, goal_radius, family: fam, sealed: false, start_invalid, goal_comp: None }
+            WorldBuild { world, start, target, goal_radius, family: fam, sealed: false, start_invalid, goal_comp: None, translation_task: false }
         }
         "shell_door" | "sealed_goal" | "sealed_start" => {
             let c = match geo.sample(rng) {
@@ -455,10 +458,15 @@ pub fn build_world(geo: &mut Box<dyn Geo>, rng: &mut Xo, ext: f64, family: &'sta
             // a fifth of the time a pure-translation task: the far point carries the centre's
             // rotational components bit for bit (as long as it stays clear of the wall)
             let mut far = far;
-            if rng.chance(0.2) {
+            let mut shared = false;
+            if rng.chance(0.4) {
                 if let Some(f2) = share_rotation(geo.spec(), &c, &far) {
-                    if geo.d(&c, &f2) > r_out + 0.02 * ext && geo.in_bounds(&f2) {
+                    // (measured with the harness's own metric as well: the far point must be
+                    // clear of the wall whichever of the two the world is defined with)
+                    let hd = crate::spaces::HMetric::new(geo.spec()).d(&c, &f2);
+                    if geo.d(&c, &f2) > r_out + 0.02 * ext && hd > r_out + 0.02 * ext && geo.in_bounds(&f2) {
                         far = f2;
+                        shared = true;
                     }
                 }
             }
@@ -486,6 +494,7 @@ pub fn build_world(geo: &mut Box<dyn Geo>, rng: &mut Xo, ext: f64, family: &'sta
                 sealed: family != "shell_door",
                 start_invalid: false,
                 goal_comp: None,
+                translation_task: shared,
             }
         }
         "slivers" => {
@@ -522,7 +531,7 @@ pub fn build_world(geo: &mut Box<dyn Geo>, rng: &mut Xo, ext: f64, family: &'sta
                 (Some(s), Some(t)) => (s, t),
                 _ => return open(geo, rng, "open"),
             };
-            WorldBuild { world, start, target, goal_radius, family, sealed: false, start_invalid: false, goal_comp: None }
+            WorldBuild { world, start, target, goal_radius, family, sealed: false, start_invalid: false, goal_comp: None, translation_task: false }
         }
         "zero_weight" => {
             // validity (and, via WorldBuild::goal_comp, the goal) depends on a component the
@@ -591,7 +600,7 @@ pub fn build_world(geo: &mut Box<dyn Geo>, rng: &mut Xo, ext: f64, family: &'sta
             if !geo.valid(0, &start) || !geo.valid(0, &target) {
                 return open(geo, rng, "open");
             }
-            WorldBuild { world, start, target, goal_radius, family, sealed: false, start_invalid: false, goal_comp }
+            WorldBuild { world, start, target, goal_radius, family, sealed: false, start_invalid: false, goal_comp, translation_task: false }
         }
         "sealed_by_bounds" => {
             // SO(2) bounded to an arc: an obstacle blocks the way inside the arc, the only other
@@ -617,7 +626,7 @@ pub fn build_world(geo: &mut Box<dyn Geo>, rng: &mut Xo, ext: f64, family: &'sta
             if !(gr > 0.0) || !geo.valid(0, &start) || !geo.valid(0, &target) {
                 return open(geo, rng, "open");
             }
-            WorldBuild { world, start, target, goal_radius: gr, family, sealed: true, start_invalid: false, goal_comp: None }
+            WorldBuild { world, start, target, goal_radius: gr, family, sealed: true, start_invalid: false, goal_comp: None, translation_task: false }
         }
         "goal_invalid" => {
             let mut wb = open(geo, rng, "goal_invalid");
@@ -657,7 +666,7 @@ pub fn build_world(geo: &mut Box<dyn Geo>, rng: &mut Xo, ext: f64, family: &'sta
             if !(target[k] > bx[k].0 && target[k] < bx[k].1) || !geo.valid(0, &target) {
                 return open(geo, rng, "open");
             }
-            WorldBuild { world, start, target, goal_radius: gr, family, sealed: false, start_invalid: false, goal_comp: None }
+            WorldBuild { world, start, target, goal_radius: gr, family, sealed: false, start_invalid: false, goal_comp: None, translation_task: false }
         }
         "thin_wall" => {
             let bx = match leading_box(geo.spec()) {
@@ -700,7 +709,7 @@ pub fn build_world(geo: &mut Box<dyn Geo>, rng: &mut Xo, ext: f64, family: &'sta
             if !(gr > 0.0) {
                 return open(geo, rng, "open");
             }
-            WorldBuild { world, start, target, goal_radius: gr, family, sealed: gap.is_none(), start_invalid: false, goal_comp: None }
+            WorldBuild { world, start, target, goal_radius: gr, family, sealed: gap.is_none(), start_invalid: false, goal_comp: None, translation_task: false }
         }
         _ => open(geo, rng, "open"),
     }
@@ -908,8 +917,12 @@ pub fn base(rng: &mut Xo, prop: &str, seed: u64, index: u64, o: &GenOpts) -> Sce
             geo.set_worlds(&[wb.world.clone()]);
             if geo.valid(0, &t2) && geo.in_bounds(&t2) && geo.d(&wb.start, &t2) > 0.0 {
                 wb.target = t2;
+                wb.translation_task = true;
             }
         }
+    }
+    if wb.translation_task && o.goal_sampler.is_none() {
+        sampler = *rng.pick(&[GoalSampler::Fixed, GoalSampler::Translate, GoalSampler::Translate]);
     }
     // legal but non-canonical start: SO(2) components off by whole turns (the state types have
     // public fields and every space primitive accepts any angle)
